@@ -3046,6 +3046,20 @@ def eval_task(ctx, deps=None, rc=0, timeout=False, spawn_fails=False, log_fails=
         ev.append(("spawn", dict(k), a))
         if spawn_fails is True:
             raise Raised("FileNotFoundError", "no such working directory")
+        # where the process's output goes: a pipe the pool has to drain, or straight into an open file (then there is no pipe to read - and none to fill up)
+        for sname, data in (("stdout", TASK_STDOUT), ("stderr", TASK_STDERR)):
+            dest = k.get(sname)
+            dn = str(getattr(dest, "name", dest))
+            if isinstance(dest, Obj) and dest._name == "file":
+                ev.append(("write", getattr(dest, "path", None), data))
+                getattr(proc, sname).pos = len(data)
+                setattr(proc, sname, None)
+            elif dn.endswith("STDOUT") and sname == "stderr":       # stderr=subprocess.STDOUT: merged into the other stream
+                proc.stderr.pos = len(TASK_STDERR)
+                setattr(proc, sname, None)
+            elif dest is None or dn.endswith("DEVNULL"):
+                getattr(proc, sname).pos = len(data)                # inherited / discarded: nothing for the pool to read
+                setattr(proc, sname, None)
         return proc
 
     def h_wait_for(aw, timeout=None, **k):
@@ -3065,14 +3079,14 @@ def eval_task(ctx, deps=None, rc=0, timeout=False, spawn_fails=False, log_fails=
         ev.append(("communicate", cur.member if isinstance(cur, EnumVal) else cur))
         interp.concurrent += 1          # communicate() drains both pipes at the same time
         try:
-            return ("COMM", (proc.stdout.read(), proc.stderr.read()))
+            return ("COMM", (proc.stdout.read() if proc.stdout is not None else None, proc.stderr.read() if proc.stderr is not None else None))
         finally:
             interp.concurrent -= 1
 
     def h_proc_wait(recv, *a, **k):
         # the process exits only when everything it printed fitted into the pipes or was read
         if recv is proc and "spawn" in [e[0] for e in ev] and not any(e[0] in ("killpg", "proc.kill") for e in ev) and not getattr(interp, "concurrent", 0):
-            for s_ in (proc.stdout, proc.stderr):
+            for s_ in streams:
                 if s_.unread() > PIPE_CAPACITY:
                     raise Hang(f"proc.wait() is awaited while {s_.unread()} bytes are waiting in a pipe nobody reads: the process blocks in write() and never exits")
         ev.append(("proc.wait",))
@@ -3124,6 +3138,7 @@ def eval_task(ctx, deps=None, rc=0, timeout=False, spawn_fails=False, log_fails=
     sched = Obj("scheduler", working_dir=SymPath("/wd"), max_cores=2, tasks=tasks, task_states=states, cores_ressource=sem, **{"__class__": ci}, **pool_as_started(ctx))
     interp = _TaskInterp(ctx, hooks, cancel_at)
     interp.events = ev
+    streams = (proc.stdout, proc.stderr)
     proc.stdout.peer, proc.stderr.peer = proc.stderr, proc.stdout
     proc.stdout.concurrent = proc.stderr.concurrent = lambda: interp.concurrent > 0
     out = {"events": ev, "raised": None, "hang": None}
